@@ -41,9 +41,11 @@ def scale_of(l):
 
 class C07:
     id = 'C07'
-    props_files = ['SmoothProps/C07.lean']
-    props_module = 'SmoothProps.C07'
-    lean_targets = ['SmoothProps.C07']
+    # + the source tie of the Manifold adaptors (traits::man<LieGroup>, manifolds/vector.hpp, submanifold.hpp, variant.hpp,
+    # any.hpp), regenerated from the C++ on every check by tools/gen_bundle.py; aggregator SmoothProps/C07All.lean
+    props_files = ['SmoothProps/C07.lean', 'SmoothProps/SrcTieManif.lean']
+    props_module = 'SmoothProps.C07All'
+    lean_targets = ['SmoothProps.C07All']
     rule = ('harness/manif.cpp, always through the free functions smooth::rplus/rminus/dof/cast/Default: per Manifold type '
             '(19 groups/vectors/scalars incl. SO2, C1 and the all-commutative Bundle<SO2,R2>, Bundle<C1,SO2>; 13 std::vector element '
             'types incl. SO2, nested, variant and SubManifold elements; variant<SO3,SE2,VectorX>, variant<SO2,C1,VectorX>; '
